@@ -73,6 +73,8 @@ enum Make {
     Ttc(Vec<String>),
     WoffOf(String),
     Woff2Of(String),
+    /// the font with the glyph `A` rewritten as an accented character ("seac" endchar)
+    SeacOf(String),
 }
 
 #[derive(Clone, Debug)]
@@ -114,6 +116,7 @@ fn file_bytes(m: &Make) -> Option<Vec<u8>> {
             let (ver, t) = wrap::sfnt_tables(&std::fs::read(abs(r)).ok()?)?;
             Some(wrap::build_woff2_null(ver, &t))
         }
+        Make::SeacOf(r) => wrap::seac_variant(&std::fs::read(abs(r)).ok()?),
         _ => None,
     }
 }
@@ -187,6 +190,8 @@ fn input_specs(tier: &str, seed: u64) -> Vec<InputSpec> {
         out.push(InputSpec { name: format!("woff2({})", r), make: Make::Woff2Of(r.to_string()) });
         out.push(InputSpec { name: format!("woff2({})#stream", r), make: Make::Woff2Stream(Box::new(Make::Woff2Of(r.to_string()))) });
     }
+    // a CFF font with an accented character built by the four-argument endchar: no repository font has one
+    out.push(InputSpec { name: "seac(fonts/opentype/SourceCodePro-Regular.otf)".to_string(), make: Make::SeacOf("fonts/opentype/SourceCodePro-Regular.otf".to_string()) });
     aots.sort();
     let keep = if tier == "quick" { 40 } else { aots.len() };
     let mut scored: Vec<(u64, String)> = aots.into_iter().map(|r| (h(&[seed, hs(&r), 0xA075]), r)).collect();
@@ -728,7 +733,9 @@ struct Shared {
 }
 
 fn supervised_group(sh: &Shared, g: usize, bytes: &[u8], base_ns: u64) -> GroupOut {
-    sh.budget.store((100 * base_ns).clamp(CPU_MIN_NS, CPU_MAX_NS), Ordering::SeqCst);
+    // C01_BUDGET_NS: for looking into a Timeout by hand (how long does it really take); never set by the check
+    let forced = std::env::var("C01_BUDGET_NS").ok().and_then(|v| v.parse::<u64>().ok());
+    sh.budget.store(forced.unwrap_or((100 * base_ns).clamp(CPU_MIN_NS, CPU_MAX_NS)), Ordering::SeqCst);
     sh.start_cpu.store(sup::thread_cpu_ns(), Ordering::SeqCst);
     sh.active.store(true, Ordering::SeqCst);
     sup::set_heap_budget(HEAP_BUDGET);
